@@ -32,6 +32,33 @@ def shaped(bits, rng):
     return out
 
 
+def zero_limb_pairs(bits, rng, quick):
+    """Operands with ka / kb low zero limbs, the second with one more zero limb in its interior (or none): the schoolbook
+    row loop trims low zeros of both operands, and a row whose multiplier limb is zero may be skipped - wrong only when the
+    remaining window is (nearly) exhausted at that row, i.e. for particular (ka, kb, position) triples at 4 and more limbs."""
+    L = nlimbs(bits)
+    if L < 3 or bits > 1100:
+        return []
+    m = (1 << bits) - 1
+    triples = [(ka, kb, j) for ka in range(L) for kb in range(L) for j in [None] + list(range(kb + 1, L))]
+    if len(triples) > (260 if quick else 2000):
+        near = [t for t in triples if t[0] + t[1] >= L - 3 and t[2] is not None]
+        triples = rng.sample(near, min(len(near), 160 if quick else 1500)) + rng.sample(triples, 60 if quick else 500)
+    if bits > 600 and quick:
+        triples = rng.sample(triples, 50)
+    out = []
+    for ka, kb, j in triples:
+        a = b = 0
+        for i in range(ka, L):
+            a |= (rng.getrandbits(64) | 1) << (64 * i)
+        for i in range(kb, L):
+            if i != j:
+                b |= rng.choice([rng.getrandbits(64) | 1, 1, 2**64 - 1]) << (64 * i)
+        a, b = a & m, b & m
+        out += [(a, b), (b, a)]
+    return out
+
+
 def scenarios(tier, rng):
     quick = tier == "quick"
     sc = []
@@ -49,6 +76,7 @@ def scenarios(tier, rng):
                 n = 0
             ps = pairs(bits, rng, n)
             sh = shaped(bits, rng)
+            ps += zero_limb_pairs(bits, rng, quick)
             if bits <= 1100:
                 for i in range(min(len(sh), 10 if quick else 40)):
                     ps.append((sh[i], rng.choice(sh)))
